@@ -34,12 +34,14 @@ const probeSchema = "type Query {\n  ping: String\n}\n"
 var gridK = map[string]map[string]int{
 	"single-file":   {"quick": 2, "thorough": 3},
 	"follow-schema": {"quick": 1, "thorough": 2},
+	"federation":    {"quick": -1, "thorough": -1}, // no grid
 }
 
 // max selection nodes of the disabled-mode query shapes, and wrapper depth of the grid
 var shapeN = map[string]map[string]int{
 	"single-file":   {"quick": 4, "thorough": 4},
 	"follow-schema": {"quick": 3, "thorough": 4},
+	"federation":    {"quick": 0, "thorough": 0}, // no single-request shapes
 }
 var wrapDepth = map[string]int{"quick": 3, "thorough": 4}
 
@@ -48,9 +50,33 @@ var wrapDepth = map[string]int{"quick": 3, "thorough": 4}
 // case); larger shapes from {user type, absent name}
 var namesFullUpto = map[string]int{"quick": 3, "thorough": 4}
 
-var layouts = []struct{ name, yml string }{
-	{"single-file", "schema:\n  - schema.graphql\nexec:\n  filename: graph/generated.go\n  package: graph\nmodel:\n  filename: graph/models_gen.go\n  package: graph\n"},
-	{"follow-schema", "schema:\n  - schema.graphql\nexec:\n  layout: follow-schema\n  dir: graph\n  package: graph\nmodel:\n  filename: graph/models_gen.go\n  package: graph\n"},
+// max requests per history (sequences of enabled / disabled requests on one server process)
+var histLen = map[string]int{"quick": 2, "thorough": 3}
+
+// The federation probe serves its own embedded schema (the _service field returns the embedded
+// sources, not Config.Schema), so that schema carries the sentinel names. Only the request
+// histories run on it; the grid and the single-request shapes are about __schema / __type.
+const fedSchema = `extend schema @link(url: "https://specs.apollo.dev/federation/v2.3", import: ["@key"])
+
+"zqsentinel type description"
+type ZqSentinelType @key(fields: "id") {
+  id: ID!
+  zqSentinelLeaf: String
+}
+
+type Query {
+  ping: String
+  zqSentinelField: ZqSentinelType
+}
+`
+
+var layouts = []struct {
+	name, yml, schema string
+	fed               bool
+}{
+	{"single-file", "schema:\n  - schema.graphql\nexec:\n  filename: graph/generated.go\n  package: graph\nmodel:\n  filename: graph/models_gen.go\n  package: graph\n", probeSchema, false},
+	{"follow-schema", "schema:\n  - schema.graphql\nexec:\n  layout: follow-schema\n  dir: graph\n  package: graph\nmodel:\n  filename: graph/models_gen.go\n  package: graph\n", probeSchema, false},
+	{"federation", "schema:\n  - schema.graphql\nexec:\n  filename: graph/generated.go\n  package: graph\nfederation:\n  filename: graph/federation.go\n  package: graph\n  version: 2\nmodel:\n  filename: graph/models_gen.go\n  package: graph\n", fedSchema, true},
 }
 
 type finding struct {
@@ -76,6 +102,10 @@ type output struct {
 	ShapesKeyAbsent   int            `json:"shapes_expected_key_absent"`
 	ShapesUnknownName int            `json:"shape_type_fields_with_unknown_name"`
 	ShapeEvaluations  int            `json:"shape_evaluations"`
+	HistoryProcesses  int            `json:"history_processes"`
+	HistorySequences  int            `json:"history_sequences"`
+	HistoryRequests   int            `json:"history_requests"`
+	HistoryMixed      int            `json:"history_sequences_mixing_enabled_and_disabled"`
 	Exhaustive        bool           `json:"exhaustive"`
 	Stopped           string         `json:"stopped"`
 	Samples           []any          `json:"samples"`
@@ -107,8 +137,8 @@ func harnessFiles() map[string]string {
 }
 
 // buildProbe generates the probe server for one layout and builds the harness inside it.
-func buildProbe(name, yml string) (bin string, err error) {
-	spec := probe.Spec{Name: "c16-" + name, Files: map[string]string{"schema.graphql": probeSchema, "gqlgen.yml": yml}, Stub: "graph/stub.go"}
+func buildProbe(name, yml, schema string) (bin string, err error) {
+	spec := probe.Spec{Name: "c16-" + name, Files: map[string]string{"schema.graphql": schema, "gqlgen.yml": yml}, Stub: "graph/stub.go"}
 	res, err := probe.Generate(spec)
 	if err != nil {
 		return "", fmt.Errorf("generator could not be run: %v", err)
@@ -152,7 +182,7 @@ func main() {
 		wg.Add(1)
 		go func() {
 			defer wg.Done()
-			bins[i], errs[i] = buildProbe(l.name, l.yml)
+			bins[i], errs[i] = buildProbe(l.name, l.yml, l.schema)
 		}()
 	}
 	wg.Wait()
@@ -167,6 +197,9 @@ func main() {
 		code := 0
 		for i, l := range layouts {
 			cmd := exec.Command(bins[i], "-replay", rp, "-layout", l.name)
+			if l.fed {
+				cmd.Args = append(cmd.Args, "-fed")
+			}
 			cmd.Stdout, cmd.Stderr = os.Stdout, os.Stderr
 			if err := cmd.Run(); err != nil {
 				if ee, ok := err.(*exec.ExitError); ok && ee.ExitCode() == 3 {
@@ -197,7 +230,10 @@ func main() {
 			defer rwg.Done()
 			resFile := filepath.Join(probe.ScratchRoot(), "result-"+l.name+".json")
 			cmd := exec.Command(bins[i], "-tier", c.Tier, "-layout", l.name, "-out", resFile, "-budget", fmt.Sprint(share), "-grid-k", fmt.Sprint(gridK[l.name][c.Tier]),
-				"-shape-n", fmt.Sprint(shapeN[l.name][c.Tier]), "-wrap-depth", fmt.Sprint(wrapDepth[c.Tier]), "-names-full-upto", fmt.Sprint(namesFullUpto[c.Tier]))
+				"-shape-n", fmt.Sprint(shapeN[l.name][c.Tier]), "-wrap-depth", fmt.Sprint(wrapDepth[c.Tier]), "-names-full-upto", fmt.Sprint(namesFullUpto[c.Tier]), "-hist-len", fmt.Sprint(histLen[c.Tier]))
+			if l.fed {
+				cmd.Args = append(cmd.Args, "-fed")
+			}
 			cmd.Stdout, cmd.Stderr = os.Stderr, os.Stderr
 			if err := cmd.Run(); err != nil {
 				runErrs[i] = fmt.Sprintf("harness for layout %s failed: %v", l.name, err)
@@ -217,7 +253,7 @@ func main() {
 				runErrs[i] = fmt.Sprintf("harness (layout %s) reports broken machinery: %s", l.name, o.Broken[0])
 				return
 			}
-			if o.GridSchemas == 0 || (o.ShapesValid == 0 && o.Exhaustive) {
+			if o.HistorySequences == 0 || (!l.fed && (o.GridSchemas == 0 || (o.ShapesValid == 0 && o.Exhaustive))) {
 				runErrs[i] = fmt.Sprintf("harness (layout %s) evaluated nothing", l.name)
 				return
 			}
@@ -241,13 +277,15 @@ func main() {
 		for _, f := range o.Findings {
 			c.Report(f.Signature, f.What, f.Replay)
 		}
-		evaluations += o.GridEvaluations + o.ShapeEvaluations
-		nontrivial += o.GridNontrivial + o.ShapesReaching
+		evaluations += o.GridEvaluations + o.ShapeEvaluations + o.HistoryRequests
+		nontrivial += o.GridNontrivial + o.ShapesReaching + o.HistoryMixed
 		perLayout[o.Layout] = map[string]any{
 			"grid_schemas": o.GridSchemas, "grid_planned": o.GridPlanned, "grid_query_evaluations": o.GridEvaluations, "grid_distinct_nontrivial_schemas": o.GridNontrivial,
 			"shape_skeletons": o.ShapeSkeletons, "shapes_generated": o.ShapesGenerated, "shapes_valid_executed": o.ShapesValid,
 			"shapes_distinct_reaching_meta_field_when_enabled": o.ShapesReaching, "shapes_revealing_sentinel_when_enabled": o.ShapesSentinelOn,
 			"shapes_expected_key_absent_when_disabled": o.ShapesKeyAbsent, "shape_type_fields_asking_for_a_name_not_in_the_schema": o.ShapesUnknownName, "shape_request_evaluations": o.ShapeEvaluations,
+			"history_fresh_worker_processes": o.HistoryProcesses, "history_sequences": o.HistorySequences, "history_request_evaluations": o.HistoryRequests,
+			"history_sequences_mixing_enabled_and_disabled_requests": o.HistoryMixed,
 			"exhaustive": o.Exhaustive, "stopped": o.Stopped, "harness_wall_s": o.WallS,
 			"finding_case_counts": func() map[string]int {
 				m := map[string]int{}
@@ -262,6 +300,9 @@ func main() {
 			bounds["grid_max_nondefault_slots"] = map[string]any{}
 			bounds["shape_max_nodes"] = map[string]any{}
 		}
+		if o.Layout == "federation" { // its history alphabet is the superset (adds _service)
+			bounds["history_shapes"] = o.Bounds["history_shapes"]
+		}
 		bounds["grid_max_nondefault_slots"].(map[string]any)[o.Layout] = gridK[o.Layout][c.Tier]
 		bounds["shape_max_nodes"].(map[string]any)[o.Layout] = shapeN[o.Layout][c.Tier]
 		for _, s := range o.Samples {
@@ -270,7 +311,7 @@ func main() {
 	}
 	c.Cov["evaluations"] = evaluations
 	c.Cov["distinct_nontrivial"] = nontrivial
-	c.Cov["rule"] = "Per probe layout: (1) every assignment of the schema feature grid with at most grid_max_nondefault_slots non-default slots, simplest first; each schema is served through the generated Config.Schema and queried with the standard introspection.Query, an extended query with includeDeprecated:true, the same with includeDeprecated:false, __type(name:) for every user type, and the standard query with introspection disabled (evaluations = requests whose response the oracle judged). A schema is non-trivial when it has at least one non-default feature and the oracle compared at least one user-defined type rebuilt from non-null introspection data; distinct = distinct SDL text per layout. (2) every decorated query shape with at most shape_max_nodes selection nodes containing __schema or __type, the name of each __type taken as literal / variable / defaulted variable from the name alphabet in bounds (existing user type, root type, built-in scalar, introspection type, a name not in the schema, the empty string, an existing name in another case; shapes above shape_type_names_full_upto_nodes nodes use the short alphabet); with introspection disabled every meta field must be null with an error at its path and look the same whatever name was asked for, with introspection enabled a name not in the schema must give a plain null; valid ones (gqlparser validator) are executed with introspection enabled and disabled (2 evaluations); a shape is non-trivial when the enabled run returned a non-null value for its meta field, distinct = distinct query text per layout."
+	c.Cov["rule"] = "Per probe layout: (1) every assignment of the schema feature grid with at most grid_max_nondefault_slots non-default slots, simplest first; each schema is served through the generated Config.Schema and queried with the standard introspection.Query, an extended query with includeDeprecated:true, the same with includeDeprecated:false, __type(name:) for every user type, and the standard query with introspection disabled (evaluations = requests whose response the oracle judged). A schema is non-trivial when it has at least one non-default feature and the oracle compared at least one user-defined type rebuilt from non-null introspection data; distinct = distinct SDL text per layout. (2) every decorated query shape with at most shape_max_nodes selection nodes containing __schema or __type, the name of each __type taken as literal / variable / defaulted variable from the name alphabet in bounds (existing user type, root type, built-in scalar, introspection type, a name not in the schema, the empty string, an existing name in another case; shapes above shape_type_names_full_upto_nodes nodes use the short alphabet); with introspection disabled every meta field must be null with an error at its path and look the same whatever name was asked for, with introspection enabled a name not in the schema must give a plain null; valid ones (gqlparser validator) are executed with introspection enabled and disabled (2 evaluations); a shape is non-trivial when the enabled run returned a non-null value for its meta field, distinct = distinct query text per layout. (3) request histories, also on a federation probe (its own sentinel schema, _service{sdl}): for every gate configuration in bounds (documented AroundOperations gate after/before extension.Introspection{}, Introspection{} and a gating context mutator in both registration orders with the expectation that mutators run in registration order, the gating mutator alone, two servers over one / two executable schemas of the same generated package) every sequence of at most history_max_requests requests over {allowed caller, anonymous caller} x history_shapes; one fresh worker process per (configuration, first request) serves all sequences with that first request; every response is judged (1 evaluation): disabled for this caller -> null + error at the path + no schema string, enabled -> data, no error (absent type name: plain null); a sequence is non-trivial when it contains both an enabled and a disabled request, distinct by construction (configuration, sequence)."
 	c.Cov["exhaustive"] = exhaustive
 	c.Cov["bounds"] = bounds
 	c.Cov["per_layout"] = perLayout
@@ -278,7 +319,8 @@ func main() {
 		"gqlparser's parser is trusted to turn SDL / default-value text into AST; the reference is an ast.Schema loaded separately from the one handed to the server",
 		"deprecationReason is compared up to the directive's default: a deprecated element reporting null and one reporting \"No longer supported\" rebuild to the same schema (the spec makes the reason optional)",
 		"built-in types and directives are checked for presence (String, Boolean, the __ types, every referenced type; @skip @include @deprecated @specifiedBy), user-defined elements exactly; lists that do not apply to a kind may be null or empty",
-		"the federation _service field is not covered (no federation probe is generated here)",
+		"the federation _service field is covered by the request histories only (federation probe, v2, one entity); its single-request hiding shapes are the plain / alias / fragment / @include(if:$v) forms of the history alphabet",
+		"all sequences that share a first request run in one worker process one after the other, so a response may also depend on the earlier sequences of that process; a violation is reported with its own sequence and --replay runs that sequence alone on a fresh process",
 		"@defer is not part of the disabled-mode shape alphabet (POST delivers only the first payload; deferred delivery belongs to C13)",
 		"a response key that the query selects but the server leaves out entirely (duplicate spread after a skipped one, D12/C01) reveals nothing and is counted, not reported",
 	}
